@@ -222,7 +222,7 @@ func runC11(rt interface {
 		go func() {
 			ctx, cancel := ctxT(time.Second)
 			defer cancel()
-			_, _ = w.conn.SendDataMessage(ctx, 1, 1, false, secs2.A("into the void"))
+			_, _ = w.conn.SendDataMessage(ctx, 1, 1, c.offset%2 == 0, secs2.A("into the void")) // with or without the W-bit
 		}()
 	case "linktest":
 		if err := w.selectAsPeer(p, 0x5e1ec7); err != nil {
